@@ -42,6 +42,11 @@ F = [gen.profile(kinds=k, **dict(BASE, p_nestedsync=0.12, w_stmt=dict(sync=1.5, 
 HOWS = ["call", "value", "yielded", "yielded_value"]
 
 
+def _shrunk(prog, how, pol, cs, mons, oracle):
+    small, runs = tl.shrink_for(prog, how, pol, cs, mons, oracle)
+    return {"shrunk_program": small, "shrink_runs": runs}
+
+
 def plan(tier, seed, build, scale):
     n = int((2000 if tier == "quick" else 28000) * scale)
     per = max(1, n // (10 if tier == "quick" else 40))
@@ -119,7 +124,7 @@ def run_unit(unit, progress):
                         {
                             "oracle": v["oracle"],
                             "mechanism": v["oracle"],
-                            "detail": {"how": how, "prio": pol, "violation": v["detail"], "program": prog},
+                            "detail": dict({"how": how, "prio": pol, "violation": v["detail"], "program": prog}, **_shrunk(prog, how, pol, cs, mons, v["oracle"])),
                             "case": {"cases": [i, i + 1]},
                         }
                     )
